@@ -300,6 +300,9 @@ _SELFTESTS = {
 for _p, _names in _SELFTESTS.items():
     PROPS[_p].setdefault("aux", []).append({"name": "binding-selftest: corrupted recorded fields must be rejected (" + _names + ")",
                                             "cmd": "bin/selftest " + _names, "thorough_only": True})
+# the executions of the crate's own test suite (call-log hooks) are validated against the trace specification
+for _p in ["C01", "C02", "C03", "C04", "C06", "C07"]:
+    PROPS[_p]["repo_tests"] = "thorough"
 PROPS["C12"]["scenarios"] = []
 PROPS["C11"]["scenarios"] = []
 
